@@ -558,6 +558,8 @@ def check_fusion_values(idx: Index, rep: Report) -> None:
                             consistent = False
             if not consistent:
                 continue
+            if any(pol and re.fullmatch(r".*\.value\.data is None", t_) for t_, pol in nf):
+                continue  # the payload of an integer attribute is an int
             const_of = {}  # operand text -> atom of its constant
             addi_of = set()
             eqs = []  # (text a, text b) operand equalities
